@@ -54,6 +54,22 @@ Theorem C15_chunking_independent_any_reads : forall stream script sz os r,
   emitted os ++ finish r = frame stream /\ bad r = false.
 Proof. exact chunking_independent_any_reads. Qed.
 
+(* how the END of the source (or any error) is reported is one more way bytes
+   arrive: an io.Reader may return its last bytes together with io.EOF or with
+   another error.  [run_allE] is the reader fed by such a source (each chunk
+   carries the error returned with its last byte); the bytes are framed
+   whatever the error is ... *)
+Theorem C15_bytes_with_error_kept : forall stream script sz os r,
+  concat (map fst script) = stream -> 1 <= sz -> run_allE sz script = (os, r) ->
+  emitted (map fst os) ++ finish r = frame stream /\ bad r = false.
+Proof. exact bytes_with_error_kept. Qed.
+
+(* ... and every error is handed back to the caller, once, in order, none invented *)
+Theorem C15_errors_handed_back : forall sz script os r,
+  1 <= sz -> run_allE sz script = (os, r) ->
+  filter nonnil (map snd os) = filter nonnil (map snd script).
+Proof. exact errors_handed_back. Qed.
+
 (* literally "independent": two ways of reading one stream with any two buffer sizes *)
 Theorem C15_same_stream_same_lines : forall s1 s2 sz1 sz2,
   concat s1 = concat s2 -> 1 <= sz1 -> 1 <= sz2 -> deliver sz1 s1 = deliver sz2 s2.
@@ -76,6 +92,16 @@ Proof.
   - vm_compute. reflexivity.
 Qed.
 
+(* non-vacuity for the error-carrying reads: the last bytes arrive with io.EOF,
+   an earlier read returns bytes with another error; buffer size 2 cuts the
+   3-byte chunk, whose first part comes with nil *)
+Example C15_nontrivial_with_error :
+  let script := [([97; 10; 98], 2); ([98; 13; 10; 99], 1)]%N in
+  emitted (map fst (fst (run_allE 2 script))) ++ finish (snd (run_allE 2 script))
+    = [[97]; [98; 98]; [99]]%N /\
+  map snd (fst (run_allE 2 script)) = [0; 2; 0; 1]%N.
+Proof. cbv zeta. split; vm_compute; reflexivity. Qed.
+
 Print Assumptions C15_feeds_concat.
 Print Assumptions C15_frame_characterised.
 Print Assumptions C15_every_stream_decomposes.
@@ -83,3 +109,5 @@ Print Assumptions C15_refines.
 Print Assumptions C15_chunking_independent.
 Print Assumptions C15_chunking_independent_any_reads.
 Print Assumptions C15_same_stream_same_lines.
+Print Assumptions C15_bytes_with_error_kept.
+Print Assumptions C15_errors_handed_back.
